@@ -10,7 +10,7 @@ SPEC = {
             "synthesized body + UTxO: 1-3 spent values, 1-2 produced values, fee, optional mint; 55% 'related' scenarios whose outputs "
             "balance inputs+mint-fee exactly and are then perturbed by one unit / one asset half of the time, 15% sums crossing 2^63/2^64 "
             "in either input order, 15% burns of assets no input holds balanced by an output of 2^64-n, 15% boundary-weighted junk) + a "
-            "Byron check_fees op half of the time (outputs at, below and above inputs - min fee); the oracle recomputes every balance "
+            "Byron check_fees op half of the time (outputs at, below and above inputs - min fee; a quarter of them with redeem-only inputs); the oracle recomputes every balance "
             "with 128-bit integers; distinct = sha1 of op text; non-trivial = the case has both an accepted and a rejected check",
     "trusted_base": ["Model/Value.lean is a hand transcription of the value arithmetic of utils.rs (add_values, add_minted_value, coerce_*, "
                      "add_multiasset_values, values_are_equal, multi_asset_included and the conway_* family) and of "
@@ -20,9 +20,9 @@ SPEC = {
                      "transactions with fee/min-ada/size rules relaxed so that this rule decides the verdict); Byron is per rule only",
                      "harness/src/fixtures (ported test data, Byron address template)"],
     "assumptions": ["dev profile: u64/i64 sums that overflow are a panic (model verdict `panic`); in a release build the Conway u64 asset "
-                    "sum and the Byron `inputs - outputs` subtraction wrap instead - arithmetic totality is C33's subject",
-                    "transactions without certificates, withdrawals, treasury or donation fields (as the property states); Byron inputs not "
-                    "all redeem addresses (the redeem-only shortcut of check_fees returns Ok without looking at the outputs)",
+                    "sum wraps instead - arithmetic totality is C33's subject",
+                    "transactions without certificates, withdrawals, treasury or donation fields (as the property states); Byron redeem-only "
+                    "transactions are exempt from the minimum fee (as in the Byron rules) but not from outputs <= inputs",
                     "Conway: spent/produced values and the mint have unique keys (decoded BTreeMaps); Conway Legacy-form outputs are not "
                     "generated (their conversion only adds PositiveCoin unwraps)"],
     "explanation": "Self-tests run: (1) values_are_equal without the coin comparison (`if f != s` dropped) -> VIOLATION "
